@@ -420,7 +420,16 @@ class Engine:
               final query) - for kernels with few branch points.
     """
 
-    def __init__(self, timeout_ms=10000, lazy=False, cache=True, strategy='inc', max_decisions=4000):
+    def __init__(self, timeout_ms=10000, lazy=False, cache=True, strategy='inc', max_decisions=4000, first=None):
+        import os
+        # which side of a two-way branch is explored first: VERIF_SEED odd -> the False side (another corner of the path
+        # space is reached first when the enumeration is cut by a time budget; complete enumerations are unaffected)
+        if first is None:
+            try:
+                first = (int(os.environ.get('VERIF_SEED', '0')) % 2) == 0
+            except ValueError:
+                first = True
+        self.first = first
         self.strategy = strategy
         self.timeout_ms = timeout_ms
         self.lazy = lazy
@@ -576,8 +585,8 @@ class Engine:
         elif self.split_depth is not None and self.idx >= self.split_depth:
             raise SplitAbort()
         elif self.lazy:
-            self.worklist.append(list(self.trace) + [False])
-            take = True
+            self.worklist.append(list(self.trace) + [not self.first])
+            take = self.first
         else:
             ft = ff = None
             if self.use_cache:
@@ -607,8 +616,8 @@ class Engine:
                     self.path_unknown = True
                 ff = rf != z3.unsat
             if ft and ff:
-                self.worklist.append(list(self.trace) + [False])
-                take = True
+                self.worklist.append(list(self.trace) + [not self.first])
+                take = self.first
             elif ft:
                 take = True
                 self.stats['forced'] += 1
